@@ -102,8 +102,9 @@ func (l layout) cfg() hx.Config {
 	return hx.Config{Name: "blocksize-default", DisableWAL: true, MemTableSize: 32 << 10}
 }
 
-// c09Layouts enumerates the layout space, fewest points first. Quick tier: at most 3 points, point
-// placement "all flushed" / "all in the memtable", one table per flushed group. Thorough tier: at
+// c09Layouts enumerates the layout space, fewest points first. Quick tier: at most 2 points with one
+// or two range keys and 3 points with one range key, point placement "all flushed" / "all in the
+// memtable", one table per flushed group. Thorough tier: at
 // most 4 points, every point flushed or not individually, and for the uniform placements also the
 // variant with everything flushed into ONE table.
 func c09Layouts(thorough bool) []layout {
@@ -148,6 +149,9 @@ func c09Layouts(thorough bool) []layout {
 				}
 				for _, bs1 := range bsOpts {
 					for _, rs := range rkSets {
+						if !thorough && np == 3 && len(rs) > 1 {
+							continue
+						}
 						for rp := 0; rp < 1<<uint(len(rs)); rp++ {
 							rf := make([]bool, len(rs))
 							groups := 0
@@ -234,8 +238,11 @@ func runC09(c *vlib.Ctx) {
 		c.Incomplete(fmt.Sprintf("budget expired after %d of %d layouts (layouts are ordered by number of points; the enumeration is dealt to workers in order)", done, n))
 	}
 	c.Note("layouts", fmt.Sprintf("%d/%d", done, n))
-	c.Note("scope", fmt.Sprintf("layouts: point subsets (<=4 of %v) x placement (%s) x block size {1, default when >=2 points are flushed} x 1-2 range keys of %v x {memtable, flushed} each x {one table per flushed group, one table for all}; per layout %d iterators (masking suffix %v x {no filter, testkeys masking filter}%s) x (2 full scans with turn-arounds + %d seek scripts over probes %v)",
-		c09Points, map[bool]string{true: "each point flushed or in the memtable", false: "all flushed / all in the memtable"}[c.Thorough()],
-		c09RangeKeys, len(iters), c09Masks, map[bool]string{true: " x bounds {none, [a@2,b@2)}", false: ""}[c.Thorough()], len(scr), c09Probes))
+	space := "point subsets (<=2 points with 1-2 range keys, 3 points with 1 range key) x placement {all flushed, all in the memtable} x block size {1; default too when exactly 2 points are flushed} x range keys each {memtable, flushed to its own table}"
+	if c.Thorough() {
+		space = "point subsets (<=4 points) x each point {flushed, memtable} x block size {1; default too when >=2 points are flushed} x 1-2 range keys each {memtable, flushed} x (for uniform point placements) {one table per flushed group, one table for all}"
+	}
+	c.Note("scope", fmt.Sprintf("layouts over points %v and range keys %v: %s; per layout %d iterators (masking suffix %v x {no filter, testkeys masking filter}%s) x (2 full scans with turn-arounds + %d seek scripts over probes %v)",
+		c09Points, c09RangeKeys, space, len(iters), c09Masks, map[bool]string{true: "; bounds none and, for @2/@3, [a@2,b@2)", false: ""}[c.Thorough()], len(scr), c09Probes))
 	tot.note(c)
 }
